@@ -167,6 +167,13 @@ def compare(interp, op, a, b, node):
     if is_opaque(b): return b
     if isinstance(a, Masked): a = a.as_arr()
     if isinstance(b, Masked): b = b.as_arr()
+    if isinstance(a, PV) or isinstance(b, PV):
+        def leafcmp(x, y):
+            if is_opaque(x): return x
+            if is_opaque(y): return y
+            if isinstance(x, (Arr, ArrParam)) or isinstance(y, (Arr, ArrParam)): return compare(interp, op, x, y, node)
+            return scal_compare(op, x, y, text)
+        return pv_apply(leafcmp, a, b)
     if isinstance(a, (Arr, ArrParam)) or isinstance(b, (Arr, ArrParam)):
         A = as_arr(a); B = as_arr(b)
         base = arr_op2("-", a, b)
